@@ -100,16 +100,7 @@ func c19MineInsertChild(c *Ctx) {
 	h := &c19Hammer{res: &c19HResult{Rounds: c.N, Counts: map[string]int{}}, out: c.Out, rnd: c.Rnd, seen: map[string]bool{}}
 	h.flush()
 	for r := 0; r < c.N; r++ {
-		func() {
-			defer func() {
-				if x := recover(); x != nil {
-					h.fail(r, "c19/panic", "mine-vs-insert round panicked: "+firstLine(fmt.Sprint(x)))
-				}
-			}()
-			h.mineInsertRound(r)
-		}()
-		h.res.Completed++
-		h.flush()
+		h.runRound("c19-mineinsert", r, func() { h.mineInsertRound(r) })
 	}
 	h.res.Done = true
 	h.flush()
@@ -139,21 +130,20 @@ func (h *c19Hammer) mineInsertRound(round int) {
 		panic(err)
 	}
 	if keyAddr(meKey) == blockP.MinerAddress() {
-		h.count("mineinsert:round-skipped(P's miner in turn again)", 1)
+		h.fail(round, "c19/harness/scenario-guarantee-broken", "mine-vs-insert: P's own miner is in turn on P 150 s later (slot arithmetic of the scenario is off)")
 		return
 	}
 	// B was mined in the first slot on P
 	blockB := mk(blockP, blockP.Time()+10, "B")
 	if blockB.MinerAddress() == keyAddr(meKey) {
-		h.count("mineinsert:round-skipped(B is the node's own)", 1)
+		h.fail(round, "c19/harness/scenario-guarantee-broken", "mine-vs-insert: B is mined by the node itself")
 		return
 	}
 	if k, err := b.InTurn(blockB, now); err == nil && keyAddr(k) == keyAddr(meKey) {
-		h.count("mineinsert:round-skipped(in turn on B too)", 1)
+		h.fail(round, "c19/harness/scenario-guarantee-broken", "mine-vs-insert: the node is in turn on B too")
 		return
 	}
 	deputynode.SetSelfNodeKey(meKey)
-	selfID := append([]byte{}, deputynode.GetSelfNodeID()...)
 
 	run := func(mode string) c19MIOutcome {
 		consensus.VerifSetSigCache(common.Hash{}, nil)
@@ -214,7 +204,7 @@ func (h *c19Hammer) mineInsertRound(round int) {
 		if sb, err := n.raw.GetBlockByHash(blockB.Hash()); err == nil {
 			out.AtHeight2 += "B"
 			for _, sg := range sb.Confirms {
-				if id, err := sg.RecoverNodeID(sb.Hash()); err == nil && string(id) == string(selfID) {
+				if c19SigBy(meKey, blockB.Hash(), sg[:]) {
 					out.ConfirmedB = true
 				}
 			}
@@ -231,8 +221,9 @@ func (h *c19Hammer) mineInsertRound(round int) {
 	conc := run("concurrent")
 	h.count("mineinsert:rounds", 1)
 	if seq1.MineOK || seq1.Head != "B" || seq2.MinedParent != "P" || seq2.Head != "M" {
-		// the wall clock moved a slot boundary or the scenario is off: inconclusive, counted
-		h.count("mineinsert:round-skipped(sequential outcomes not the expected ones)", 1)
+		// the scenario guarantees these two outcomes by construction (slots are 100 s wide, the run takes seconds): a
+		// deviation means a change broke the guarantee — reported, never silently skipped
+		h.fail(round, "c19/harness/scenario-guarantee-broken", fmt.Sprintf("mine-vs-insert: the sequential runs do not give the outcomes the scenario guarantees (Insert→Mine: MineBlock fails, head B; Mine→Insert: M on P, head M): InsertBlock→MineBlock: %s; MineBlock→InsertBlock: %s", seq1, seq2))
 		return
 	}
 	switch conc {
